@@ -130,8 +130,7 @@ def jobs(C, tier):
            pair_job(C, 'exo_amo', 'exo', 'amo', 2, 4, 10, 12, 6, open_roots=True, unwind=3)]
     out.append(pair_job(C, 'exo_exo', 'exo', 'exo', 2, 6, 16, 16, 6, open_roots=True, unwind=3))
     out.append(pair_job(C, 'amo_amo', 'amo', 'amo', 2, 2, 6, 8, 6, open_roots=True, unwind=3))
-    import os
-    if tier == 'thorough' or os.environ.get('C13_ROOTS'):
+    if True:
         # the root-true shortcut of the cardinality constructs interacting with the cache: symbolic root values, <= 3 literals
         out.append(pair_job(C, 'amo_amo_root_values', 'amo', 'amo', 3, 2, 8, 8, 8, open_roots=False, unwind=4))
     return out
